@@ -76,6 +76,8 @@ pub struct Prep {
     pub entries: Vec<pmtiles2::Entry>,
     pub n: u64,
     pub log: Vec<OpRec>,
+    /// size of the stream after the fault-free run (write scenarios)
+    pub out_len: u64,
 }
 
 pub type Outcome = Result<Result<(), String>, PanicInfo>;
@@ -108,7 +110,8 @@ pub fn exec2(inst: &Inst, b: &Built, entries: &[pmtiles2::Entry], sched: Sched, 
     let a = inst.asyncio;
     let mut sched = sched;
     sched.fail_from = fail_at;
-    sched.zero_write_from = zero_at;
+    // (the second fault kind is a fixed-size sink: `zero_at` is its capacity in bytes)
+    sched.capacity = zero_at;
     let mk_reader = |data: Vec<u8>| Stream::new(data, 0, sched.clone(), keep_log);
     let mk_writer = || Stream::new(vec![0xEE; start_pos as usize], start_pos, sched.clone(), keep_log);
     let mut base_ops = 0u64;
@@ -326,27 +329,17 @@ fn check_fault(inst: &Inst, p: &Prep, k: u64) -> CaseResult {
 /// second fault kind: from operation k on the sink accepts nothing (`write` returns Ok(0)); only for scenarios
 /// that write, and only for k after which the fault-free run still writes at least one byte
 fn check_zero_write(inst: &Inst, p: &Prep, k: u64) -> CaseResult {
-    let still_writes = p.log.iter().skip(k as usize).any(|o| matches!(o, OpRec::Write { bytes, .. } if !bytes.is_empty()));
-    if !still_writes {
-        return Ok(Meta::new(false).label(true, "zero-write-nothing-left-to-write"));
-    }
+    // k = capacity of the sink in bytes, smaller than what the fault-free run writes
     let (out, _, _) = exec2(inst, &p.b, &p.entries, Sched::none(), None, Some(k), false, 0);
     let kind = if inst.asyncio { "async" } else { "sync" };
     match out {
-        Err(pi) => fail!(format!("C15/panic-on-fault/{}/{kind}", inst.scen.name()), "sink full from operation {k} of {}: panic {} at {}", p.n, pi.msg, pi.loc),
+        Err(pi) => fail!(format!("C15/panic-on-fault/{}/{kind}", inst.scen.name()), "sink of {k} bytes: panic {} at {}", pi.msg, pi.loc),
         Ok(Err(_)) => Ok(Meta::new(k > 0).label(true, "sink-full-zero-write").label(true, scen_label(inst.scen))),
         Ok(Ok(())) => {
-            let flush_at = p.log.iter().position(|o| matches!(o, OpRec::Flush));
-            let phase = match flush_at {
-                Some(f) if (k as usize) > f => "after-flush",
-                Some(_) => "before-flush",
-                None => "no-flush",
-            };
-            let compressed = if p.b.header.internal == 1 { "none" } else { "codec" };
             fail!(
-                format!("C15/ok-after-sink-full/{}/{kind}/{compressed}/{phase}", inst.scen.name()),
-                "from operation {k} of {} on the stream accepts no more bytes (write returns Ok(0)) but the call reports success ({})",
-                p.n,
+                format!("C15/ok-after-sink-full/{}/{kind}", inst.scen.name()),
+                "the output can hold only {k} of the {} bytes the complete output needs (writes beyond that return Ok(0)) but the call reports success ({})",
+                p.out_len,
                 codec::name(p.b.header.internal)
             )
         }
@@ -389,7 +382,8 @@ pub fn prepare(inst: &Inst) -> Result<Prep, Fail> {
         Ok(Err(e)) => fail!("C15/harness", "fault-free run of {} failed: {e}", inst.scen.name()),
         Err(p) => fail!("C15/harness", "fault-free run of {} panicked: {} at {}", inst.scen.name(), p.msg, p.loc),
     }
-    Ok(Prep { b, entries, n, log: st.log() })
+    let out_len = st.with(|c| c.data.len() as u64);
+    Ok(Prep { b, entries, n, log: st.log(), out_len })
 }
 
 pub fn instances(ctx: &Ctx) -> Vec<Inst> {
@@ -487,9 +481,10 @@ pub fn run(ctx: &Ctx) {
     // uncompressed scenarios only: a codec's own write loop may spin on a sink that keeps answering Ok(0) (brotli's does),
     // which is the codec crate's behaviour and not an I/O *error* in the sense of the property
     let wr: Vec<usize> = (0..preps.len()).filter(|i| is_write_scenario(preps[*i].0.scen) && preps[*i].1.b.header.internal == 1).collect();
+    let wr: Vec<usize> = wr.into_iter().filter(|i| preps[*i].1.out_len <= 6000).collect();
     let mut wprefix: Vec<u64> = vec![0];
     for i in &wr {
-        wprefix.push(wprefix.last().unwrap() + preps[*i].1.n);
+        wprefix.push(wprefix.last().unwrap() + preps[*i].1.out_len);
     }
     let wtot = *wprefix.last().unwrap();
     let wlocate = |i: u64| -> (usize, u64) {
@@ -508,7 +503,7 @@ pub fn run(ctx: &Ctx) {
         },
         |i| {
             let (idx, k) = wlocate(i);
-            json!({"inst": preps[idx].0, "k": k, "n": preps[idx].1.n, "fault": "zero-length writes"})
+            json!({"inst": preps[idx].0, "k": k, "n": preps[idx].1.out_len, "fault": "fixed-size sink of k bytes"})
         },
     );
     ctx.rec.floor("sink-full-zero-write", 20);
